@@ -397,6 +397,11 @@ func packageName(args []*lisp.LVal) string {
 	if arg.Type == lisp.LSExpr && arg.IsQuoted() && len(arg.Cells) > 0 && arg.Cells[0].Type == lisp.LSymbol {
 		return arg.Cells[0].Str
 	}
+	// the spelled-out form: (in-package (quote name))
+	if arg.Type == lisp.LSExpr && !arg.IsQuoted() && len(arg.Cells) == 2 && arg.Cells[0].Type == lisp.LSymbol &&
+		arg.Cells[0].Str == "quote" && arg.Cells[1].Type == lisp.LSymbol {
+		return arg.Cells[1].Str
+	}
 	return ""
 }
 
